@@ -538,6 +538,21 @@ def function(
         },
     )
 
+    # Parameters keep the order of the signature (those only in the docstring stay last)
+    signature_order = {
+        arg.arg: idx
+        for idx, arg in enumerate(
+            function_def.args.args + function_def.args.kwonlyargs
+        )
+    }
+    intermediate_repr["params"] = OrderedDict(
+        sorted(
+            intermediate_repr["params"].items(),
+            key=lambda name_param: signature_order.get(
+                name_param[0], len(signature_order)
+            ),
+        )
+    )
     intermediate_repr["params"].update(params_to_append)
     intermediate_repr["params"] = OrderedDict(
         map(
